@@ -56,6 +56,17 @@ mutual
       simp
 end
 
+mutual
+  /-- `v` is defined in `g` or in a graph nested in `g`: graph input, initializer or node output -/
+  inductive DefInG : GraphT → VId → Prop
+    | input {g : GraphT} {v : VId} : v ∈ g.inputs → DefInG g v
+    | init {g : GraphT} {v : VId} : v ∈ g.inits → DefInG g v
+    | node {g : GraphT} {n : NodeT} {v : VId} : n ∈ g.nodes → DefInN n v → DefInG g v
+  inductive DefInN : NodeT → VId → Prop
+    | out {n : NodeT} {v : VId} : v ∈ n.outputs → DefInN n v
+    | nested {n : NodeT} {b : GraphT} {v : VId} : b ∈ n.bodies → DefInG b v → DefInN n v
+end
+
 /-- `k` is the id of `b` or of a graph nested in `b` at any depth -/
 inductive NestedIn : GraphT → GId → Prop
   | self {b : GraphT} : NestedIn b b.gid
